@@ -654,10 +654,10 @@ impl<'a> Sound<'a> {
 
     fn check_path_update(&self, vp: &nomt_core::proof::VerifiedPathProof, what: &str, wmax: usize, calls: &mut u64) -> Option<Violation> {
         let fam = &self.t.fam;
-        let in_scope: Vec<usize> = (0..fam.len())
-            .filter(|gi| fam[*gi].view_bits::<Msb0>().starts_with(vp.path()))
-            .collect();
-        for w in write_sets(&in_scope, fam, wmax) {
+        // write sets range over ALL family keys: an out-of-scope operation must be refused (or
+        // still give the true root), not silently routed through this path
+        let all: Vec<usize> = (0..fam.len()).collect();
+        for w in write_sets(&all, fam, wmax) {
             *calls += 1;
             let upd = [PathUpdate {
                 inner: vp.clone(),
@@ -697,8 +697,8 @@ impl<'a> Sound<'a> {
             }
         }
         let fam = &self.t.fam;
-        let in_scope: Vec<usize> = (0..fam.len()).filter(|gi| vm.find_index_for(&fam[*gi]).is_ok()).collect();
-        for w in write_sets(&in_scope, fam, wmax) {
+        let all: Vec<usize> = (0..fam.len()).collect();
+        for w in write_sets(&all, fam, wmax) {
             *calls += 1;
             if let Ok(r) = verify_multi_proof_update::<H>(vm, w.clone()) {
                 let truth = self.t.root_after(&w);
@@ -803,6 +803,46 @@ impl ProofX {
                         if let Some(vi) = sound.check_path_update(&vp, &what, wmax, &mut calls) {
                             out.violation = Some(vi);
                             return out;
+                        }
+                    }
+                }
+            }
+        }
+        // several verified honest paths at once, operations routed to every path (also wrong ones)
+        {
+            let mut vps: Vec<(usize, nomt_core::proof::VerifiedPathProof)> = vec![];
+            for (gi, g) in fam.iter().enumerate() {
+                if let Ok(vp) = t.honest(g).verify::<H>(g.view_bits::<Msb0>(), t.root) {
+                    if !vps.iter().any(|(_, o)| o.path() == vp.path()) {
+                        vps.push((gi, vp));
+                    }
+                }
+            }
+            vps.sort_by(|a, b| a.1.path().cmp(b.1.path()));
+            let all: Vec<usize> = (0..fam.len()).collect();
+            let singles = write_sets(&all, &fam, 1);
+            for a in 0..vps.len() {
+                for b in a + 1..vps.len() {
+                    for wa in &singles {
+                        for wb in &singles {
+                            calls += 1;
+                            objects += 1;
+                            let upd = [
+                                PathUpdate { inner: vps[a].1.clone(), ops: wa.clone() },
+                                PathUpdate { inner: vps[b].1.clone(), ops: wb.clone() },
+                            ];
+                            if let Ok(r) = verify_update::<H>(t.root, &upd) {
+                                let mut w = wa.clone();
+                                w.extend(wb.iter().cloned());
+                                let truth = t.root_after(&w);
+                                if r != truth {
+                                    out.violation = Some(v(
+                                        "false-update-root",
+                                        format!("S={mask:#x}: verify_update over two honest paths (keys #{} and #{}) with ops {} / {} returned {} but the true root is {}", vps[a].0, vps[b].0, wdesc(wa, &fam), wdesc(wb, &fam), hex(&r[..6]), hex(&truth[..6])),
+                                    ));
+                                    return out;
+                                }
+                            }
                         }
                     }
                 }
